@@ -667,7 +667,7 @@ func TestVerif_C29(t *testing.T) {
 	}
 
 	// generated requests with small thresholds, so that both are crossed often and entries stay small
-	n := vN(200, 6000)
+	n := vN(200, 3000)
 	kinds := []string{"execute", "query", "request", "execute", "query", "request", "noop", "loadchunk"}
 	for i := 0; i < n; i++ {
 		kind := kinds[i%len(kinds)]
